@@ -411,3 +411,161 @@ class Accuracy(Monitor):
         if err > self.K * bound:
             world.violate(self.prop, self.oracle, "|y_N - exact| = %.3e > %g * %.3e (rtol %.2e atol %.2e steps %d amp %.2f, %s)"
                           % (err, self.K, bound, rtol, atol, nsteps, amp, type(integ).__name__))
+
+
+# ======================================================================================== C06
+def _inside(a, b, frac):
+    return a + (b - a) * frac
+
+
+class Dense(Monitor):
+    """C06: dense output is a consistent continuous extension of the recorded trajectory."""
+
+    def __init__(self, prop="C06", accuracy=True, K_acc=20.0, K_rich=200.0):
+        self.prop = prop
+        self.accuracy = accuracy
+        self.K_acc = K_acc
+        self.K_rich = K_rich
+
+    def after_op(self, world, i, op, pre, snap):
+        P = self.prop
+        sysm = world.system
+        sol = sysm.sol
+        if not world.scn["system"].get("dense"):
+            return
+        t, y = snap["t"], snap["y"]
+        n = snap["n"]
+        if n < 2:
+            if sol is not None and sol.t_eval is not None and len(sol.t_eval) > 0:
+                world.violate(P, P + ".coverage", "no step recorded but dense output holds %d pieces" % len(sol.t_eval))
+            return
+        if sol is None or sol.t_eval is None:
+            world.violate(P, P + ".coverage", "%d steps recorded but dense output is empty" % (n - 1))
+            return
+        rich = any(c["kind"] == "rich" for c in world.icalls if c["depth"] == 0 and c["ok"])
+        te = [np.asarray(x) for x in sol.t_eval]
+        tev = np.array([x for x in te])
+        dtype = y.dtype
+        eps = eps_of(dtype)
+        d = np.diff(tev)
+        if len(te) != len(sol.y_interpolants):
+            world.violate(P, P + ".coverage", "len(t_eval)=%d but %d interpolants" % (len(te), len(sol.y_interpolants)))
+            return
+        if len(d) and not (np.all(d > 0) or np.all(d < 0)):
+            world.violate(P, P + ".ordered", "sol.t_eval is not strictly monotone: %r" % ([float(v) for v in tev[:12]],))
+        rec = t[1:]
+        if not rich:
+            # piece end times are compared within 2 ulp of the state's precision: the integrator may carry the step
+            # size in higher precision than the (float32) time buffer
+            tol_m = 2 * eps * np.maximum(1.0, np.abs(np.sort(rec).astype(np.float64))) if len(rec) else 0.0
+            same = len(tev) == len(rec) and bool(np.all(np.abs(np.sort(tev).astype(np.float64) - np.sort(rec).astype(np.float64)) <= tol_m))
+            if not same:
+                tol1 = 2 * eps * max(1.0, float(np.max(np.abs(rec.astype(np.float64)))) if len(rec) else 1.0)
+                extra = [float(v) for v in tev if not np.any(np.abs((rec - v).astype(np.float64)) <= tol1)][:4]
+                missing = [float(v) for v in rec if not np.any(np.abs((tev - v).astype(np.float64)) <= tol1)][:4]
+                world.violate(P, P + ".coverage", "dense pieces do not cover exactly the %d recorded steps: %d pieces, extra ends %r, missing ends %r"
+                              % (n - 1, len(tev), extra, missing))
+                return
+        else:
+            lo, hi = min(t[0], t[-1]), max(t[0], t[-1])        # native precision
+            tol_t = 8 * eps * max(1.0, abs(_f(lo)), abs(_f(hi)))
+            if np.any(tev < lo - tol_t) or np.any(tev > hi + tol_t):
+                world.violate(P, P + ".coverage", "Richardson piece end outside the integrated range [%r,%r]" % (_f(lo), _f(hi)))
+            missing = [float(v) for v in rec if not np.any(np.abs(tev - v) <= tol_t)][:4]
+            if missing:
+                world.violate(P, P + ".coverage", "recorded step ends %r have no dense piece ending there" % (missing,))
+        f = world.f_math
+        spiked = any(fr["fault"]["kind"] == "spike" for fr in world.fired)
+        slopes = [None] * n
+        k = world.system.constants.get("k", 1.0)
+        integ = world.system.integrator
+        rtol = _f(getattr(integ, "rtol", 0.0))
+        atol = _f(getattr(integ, "atol", 0.0))
+        queries = []
+        for j in range(n - 1):
+            a, b = t[j], t[j + 1]
+            if a == b:
+                continue
+            for jj in (j, j + 1):
+                if slopes[jj] is None:
+                    slopes[jj] = np.asarray(f(t[jj], y[jj]), dtype=dtype)
+            ref = RefHermite(a, b, y[j], y[j + 1], slopes[j], slopes[j + 1])
+            sc = ref.scale()
+            # (b) grid reproduction
+            for (tt, yy, name) in ((a, y[j], "left"), (b, y[j + 1], "right")):
+                got = sol(tt)
+                err = float(np.max(np.abs(got - yy)))
+                if not rich:
+                    bound = 4 * eps * max(sc, 1e-300)
+                    world.ratio(P + ".grid_reproduction", err / bound)
+                    if err > bound:
+                        world.violate(P, P + ".grid_reproduction", "sol(t[%d]) differs from the recorded state by %.3e (> %.3e), %s end of step %d"
+                                      % (j if name == "left" else j + 1, err, bound, name, j))
+                else:
+                    bound = (atol + rtol * float(np.max(np.abs(yy)))) + 64 * eps * sc
+                    world.ratio(P + ".grid_reproduction_richardson", err / bound)
+                    if err > self.K_rich * bound:
+                        world.violate(P, P + ".grid_reproduction_richardson", "sol(t[%d]) differs from the recorded state by %.3e (> %g*%.3e)"
+                                      % (j if name == "left" else j + 1, err, self.K_rich, bound))
+            if rich or spiked:
+                continue
+            # (c) containing piece, (d) slopes
+            taus = [np.nextafter(a, b), _inside(a, b, dtype.type(0.31)), _inside(a, b, dtype.type(0.5)), _inside(a, b, dtype.type(0.83)), np.nextafter(b, a)]
+            for tau in taus:
+                tau = np.asarray(tau, dtype=dtype)
+                if not (min(a, b) <= tau <= max(a, b)):
+                    continue
+                got = sol(tau)
+                want = ref(tau)
+                err = float(np.max(np.abs(got - want)))
+                bound = 64 * eps * max(sc, 1e-300)
+                world.ratio(P + ".containing_piece", err / bound)
+                if err > bound:
+                    world.violate(P, P + ".containing_piece", "sol(%r) in step %d [%r,%r] differs from that step's Hermite piece by %.3e (> %.3e)"
+                                  % (_f(tau), j, _f(a), _f(b), err, bound))
+                    break
+                queries.append((tau, got))
+            for (tau, m, name) in ((np.nextafter(a, b), slopes[j], "start"), (np.nextafter(b, a), slopes[j + 1], "end")):
+                tau = np.asarray(tau, dtype=dtype)
+                g = sol.grad(tau)
+                h = abs(_f(b - a))
+                curv = (float(np.max(np.abs(y[j + 1] - y[j]))) / h + float(np.max(np.abs(slopes[j]))) + float(np.max(np.abs(slopes[j + 1])))) * 8
+                bound = 256 * eps * (sc / h) + 8 * eps * max(abs(_f(a)), abs(_f(b)), 1e-300) / h * curv + 1e-300
+                err = float(np.max(np.abs(g - m)))
+                world.ratio(P + ".end_slopes", err / bound)
+                if err > bound:
+                    world.violate(P, P + ".end_slopes", "slope of the piece at the %s of step %d differs from f(recorded state) by %.3e (> %.3e)" % (name, j, err, bound))
+                    break
+        # scalar and array queries agree
+        if queries and not rich:
+            qs = queries[:: max(1, len(queries) // 7)][:8]
+            arr = np.array([q[0] for q in qs], dtype=dtype)[::-1]
+            got = sol(arr)
+            for idx, q in enumerate(qs[::-1]):
+                if not bitwise_equal(np.asarray(got[idx]), np.asarray(q[1])):
+                    world.violate(P, P + ".array_query", "array query at %r differs from the scalar query" % (_f(q[0]),))
+                    break
+        # (e) accuracy between grid points against the closed form
+        if self.accuracy and world.problem.has_exact and not world.fired and all(s["exc"] is None for s in world.snaps) and integ is not None:
+            adaptive = bool(getattr(integ, "is_adaptive", False))
+            if adaptive:
+                y0 = np.asarray(y[0], dtype=np.float64)
+                end_err = []
+                for j in range(n):
+                    ex = world.problem.exact(t[j], t[0], y0, k=k)
+                    end_err.append(float(np.max(np.abs(np.asarray(y[j], dtype=np.float64) - ex))))
+                worst = 0.0
+                for j in range(n - 1):
+                    a, b = t[j], t[j + 1]
+                    h = abs(_f(b - a))
+                    tau = _inside(a, b, dtype.type(0.5))
+                    ex = world.problem.exact(tau, t[0], y0, k=k)
+                    err = float(np.max(np.abs(np.asarray(sol(tau), dtype=np.float64) - ex)))
+                    ymax = float(np.max(np.abs(y[j:j + 2])))
+                    y4 = world.problem.deriv4_scale(k) * ymax * 4
+                    bound = 3 * max(end_err[j], end_err[j + 1]) + 1.5 * h ** 4 / 384 * y4 + (atol + rtol * ymax) * (self.K_rich if rich else 1.0) + 64 * eps * ymax
+                    worst = max(worst, err / bound)
+                    world.ratio(P + ".interp_accuracy", err / bound)
+                    if err > self.K_acc * bound:
+                        world.violate(P, P + ".interp_accuracy", "|sol(mid of step %d) - exact| = %.3e > %g * %.3e (h=%.3g)" % (j, err, self.K_acc, bound, h))
+                        break
